@@ -116,18 +116,22 @@ COMMON_ASSUMPTIONS = [
 PROPS: dict[str, dict] = {}
 
 
+R22_CLAUSE = ('R22: no memo / cache in the functions this property depends on is keyed by less than the cached value is '
+              'computed from (parameters, loop variables, attribute paths of the keyed object)')
 R25_CLAUSE = ('R25: in the functions this property depends on, no id / defense status is tested by truthiness '
               '(0 and 0.0 are values), no mutable default argument is mutated, no generator is iterated twice, and no '
               'result is kept in process-global state (module-level cache, lru_cache, shared compiler object)')
 
 
-def _p(pid, title, rules, decided, undecided, anchors=(), floor=1, extra_assumptions=(), also=()):
-    decided = list(decided) + ([R25_CLAUSE] if 'R25' in rules else [])
+def _p(pid, title, rules, decided, undecided, anchors=(), floor=1, extra_assumptions=(), also=(), includes=()):
+    decided = list(decided) + ([R22_CLAUSE] if 'R22' in rules and not any(d.startswith('R22') for d in decided) else []) \
+        + ([R25_CLAUSE] if 'R25' in rules else [])
     PROPS[pid] = {
         'title': title,
         'rules': list(rules),
         'anchors': list(anchors),
         'also': list(also),
+        'includes': list(includes),     # properties this one contains by its own statement (C13: "... still satisfies C09")
         'floor': floor,
         'decided': list(decided),
         'undecided': list(undecided),
@@ -164,7 +168,7 @@ _p('C01', 'Attack-graph edges are exactly the MAL meaning of the step expression
             ('R14', '_process_step_expression'), ('R19', '_process_step_expression')], floor=30)
 
 _p('C02', 'One node per asset x step, with attributes faithful to model and language',
-   ['R3', 'R4', 'R12', 'R8', 'R17', 'R20', 'R19', 'R14', 'R6', 'R25'],
+   ['R3', 'R4', 'R12', 'R8', 'R17', 'R20', 'R19', 'R14', 'R6', 'R22', 'R25'],
    decided=['R3: every node entering the node list is registered in both lookup indexes and '
             'advances the id counter (and symmetrically on removal)',
             'R4: add_node honours an explicit id by an is-None test, its duplicate test checks the '
@@ -176,7 +180,7 @@ _p('C02', 'One node per asset x step, with attributes faithful to model and lang
    anchors=[('R3', 'AttackGraph.add_node'), ('R4', 'AttackGraph.add_node'), ('R4', 'Model.add_asset')])
 
 _p('C03', 'Step inheritance resolves override/extend correctly and the lookup is pure',
-   ['R6', 'R3', 'R22', 'R17', 'R25'],
+   ['R6', 'R3', 'R22', 'R17', 'R20', 'R25'],
    decided=['R6: no in-place mutation anywhere in the package has a receiver that may be owned by the '
             'loaded specification (whole-package points-to; deepcopy results tracked per key), so '
             'lookups, language-graph and attack-graph generation leave the specification unmodified '
@@ -192,7 +196,7 @@ _p('C03', 'Step inheritance resolves override/extend correctly and the lookup is
             ('R3', 'LanguageGraph.regenerate_graph')], floor=5)
 
 _p('C04', 'The MAL compiler\'s output is the language the source text denotes',
-   ['R13', 'R9', 'R25'],
+   ['R13', 'R9', 'R22', 'R25'],
    decided=['R13a: every grammar rule has a visitor method (or is a documented inline rule)',
             'R13b: children the grammar can repeat without bound are consumed in full',
             'R13c: operator chains read the operator between each pair of operands',
@@ -225,7 +229,7 @@ _p('C05', 'The instance model stays coherent under any history of edits',
             ('R5', 'Model.remove_asset_from_association')])
 
 _p('C06', 'A model can only hold what the language allows',
-   ['R17', 'R8', 'R18', 'R20', 'R25'],
+   ['R17', 'R8', 'R18', 'R20', 'R22', 'R25'],
    decided=['R17 T11a: per asset the schema entry has id/type, allOf to every direct super asset, and for every '
             'defense step a number property with minimum 0, maximum 1 and default 1.0 iff its TTC is Enabled else 0.0',
             'R17 T11b: per association an array field per end typed by $ref to the declared asset of that end, '
@@ -256,7 +260,7 @@ _p('C07', 'Saving and loading a model preserves it (JSON and YAML)',
             ('R4', 'Model.add_asset'), ('R4', 'Model.add_attacker')], floor=30)
 
 _p('C08', 'Viability/necessity labels are the greatest fixed point, in any node order',
-   ['R17', 'R12', 'R1', 'R25'],
+   ['R17', 'R12', 'R1', 'R22', 'R25'],
    decided=['R17 T1/T2: per-type viability and necessity equations (exist / notExist / defense from status, or = '
             'exists / and = forall over parents and dually) equal the reference tables',
             'R17 T3/T4: propagation recomputes or-children by an exists-fold, forces and-children false (viability) '
@@ -272,7 +276,7 @@ _p('C08', 'Viability/necessity labels are the greatest fixed point, in any node 
             ('R17', 'calculate_viability_and_necessity')], floor=5)
 
 _p('C09', 'Attack-graph structure and lookup indexes stay consistent in any history',
-   ['R1', 'R2', 'R3', 'R4', 'R7', 'R20', 'R25'],
+   ['R1', 'R2', 'R3', 'R4', 'R7', 'R20', 'R22', 'R25'],
    decided=['R1: no loop of the attack-graph layer removes from the list it walks',
             'R4: node/attacker ids: explicit id honoured, duplicate test on the stored id, counters monotone',
             'R7: the graph deep copy carries indexes and counters and re-links children, parents and '
@@ -293,7 +297,7 @@ _p('C09', 'Attack-graph structure and lookup indexes stay consistent in any hist
             ('R4', 'AttackGraph.add_attacker'), ('R7', 'AttackGraph.__deepcopy__')])
 
 _p('C10', 'Saving and loading an attack graph preserves it',
-   ['R8', 'R4', 'R2', 'R25'],
+   ['R8', 'R4', 'R2', 'R22', 'R25'],
    decided=['R8 i-ii: all node / attacker keys written by to_dict are read by _from_dict (compromised_by is a '
             'documented redundancy), unguarded reads are always written',
             'R8 iii: str(float)<->float, str(bool)<->== \'True\', list<->list, ids used as mapping keys are '
@@ -311,7 +315,7 @@ _p('C10', 'Saving and loading an attack graph preserves it',
             ('R4', 'AttackGraph.add_node')], floor=40)
 
 _p('C11', 'Attackers and nodes always agree on what is compromised',
-   ['R1', 'R2', 'R7', 'R20', 'R8', 'R17', 'R25'],
+   ['R1', 'R2', 'R7', 'R20', 'R8', 'R17', 'R15', 'R22', 'R25'],
    decided=['R1: remove_attacker does not shrink the reached list while walking it',
             'R2: compromise/undo_compromise update node.compromised_by and '
             'attacker.reached_attack_steps together on the same two objects; remove_attacker '
@@ -328,7 +332,7 @@ _p('C11', 'Attackers and nodes always agree on what is compromised',
             ('R8', 'AttackGraph.attach_attackers')])
 
 _p('C12', 'Attack-surface queries follow their definition; incremental = recomputed',
-   ['R17', 'R12', 'R10', 'R23', 'R25'],
+   ['R17', 'R12', 'R10', 'R23', 'R22', 'R25'],
    decided=['R17 T7: is_node_traversable_by_attacker equals: viable and (or-step, or and-step all of whose '
             'necessary parents THIS attacker compromised)',
             'R17 T8: is_enabled_defense / is_available_defense and the two defense surfaces equal their definitions; '
@@ -342,7 +346,7 @@ _p('C12', 'Attack-surface queries follow their definition; incremental = recompu
             ('R17', 'update_attack_surface_add_nodes'), ('R17', 'get_defense_surface')], floor=6)
 
 _p('C13', 'Pruning removes exactly the non-viable or unnecessary attack steps',
-   ['R1', 'R2', 'R3', 'R17', 'R10', 'R25'],
+   ['R1', 'R2', 'R3', 'R17', 'R10', 'R4', 'R7', 'R20', 'R22', 'R25'],
    decided=['R1: the pruning loop does not remove from the node list it walks (every prunable '
             'node is visited)',
             'R2/R3 on remove_node: neighbours, attackers, entry points and both indexes are cleaned',
@@ -352,10 +356,10 @@ _p('C13', 'Pruning removes exactly the non-viable or unnecessary attack steps',
    undecided=['that remove_node leaves a C09-consistent graph for every graph shape'],
    anchors=[('R1', 'prune_unviable_and_unnecessary_nodes'), ('R2', 'AttackGraph.remove_node'),
             ('R3', 'AttackGraph.remove_node')],
-   also=[('R2', 'AttackGraph.remove_node'), ('R3', 'AttackGraph.remove_node')])
+   also=[('R2', 'AttackGraph.remove_node'), ('R3', 'AttackGraph.remove_node')], includes=['C09'])
 
 _p('C14', 'A deep copy of an attack graph is equal and fully independent',
-   ['R7', 'R25'],
+   ['R7', 'R22', 'R25'],
    decided=['R7a: every field of node / attacker / graph receives its value in the copy, scalars and '
             'shared fields (asset, model, lang_graph) from the same field of the original',
             'R7b: every mutable container field gets an independent value (empty literal, deepcopy with '
@@ -369,7 +373,7 @@ _p('C14', 'A deep copy of an attack graph is equal and fully independent',
             ('R7', 'AttackGraph.__deepcopy__')], floor=20)
 
 _p('C16', 'Graph generation is deterministic and does not disturb its inputs',
-   ['R6', 'R22', 'R10', 'R25'],
+   ['R6', 'R22', 'R10', 'R20', 'R25'],
    decided=['R6: generation, analysis and lookups never mutate an object that may be owned by the loaded '
             'language specification',
             'R10 DET: no function reachable from compile / language graph / model load / generation / attach / '
@@ -384,7 +388,7 @@ _p('C16', 'Graph generation is deterministic and does not disturb its inputs',
    floor=5)
 
 _p('C17', 'Malformed MAL source is rejected, never half-compiled',
-   ['R9', 'R25'],
+   ['R9', 'R22', 'R25'],
    decided=['R9a: the parse tree reaches the visitor only under one of the accepted error idioms (raising '
             'error listener installed before the start rule / bail strategy / tested error count); the parser '
             'is constructed nowhere else; includes go through MalCompiler.compile',
